@@ -38,6 +38,8 @@ func Generate(w *World, fn *ssa.Function, opt Options) (res *FuncResult) {
 	res.Ctx = c
 	c.loopWrites = map[string]map[string]bool{}
 	c.loopAll = map[string]bool{}
+	c.loopCallees = map[string][]*ssa.CallCommon{}
+	c.loopAllUnknown = map[string]bool{}
 	// pass 1: discover heaps and loop write sets
 	c.scan = true
 	c.runTop()
@@ -74,6 +76,9 @@ func (c *Ctx) Script(sel map[int]bool) string {
 		if _, ok := c.R.heaps[h]; ok {
 			fmt.Fprintf(&b, "(assert (forall ((m Ref)) (! (>= (select %s_0 m) 0) :pattern ((select %s_0 m)))))\n", h, h)
 		}
+	}
+	if _, ok := c.R.heaps[HPriv]; ok {
+		b.WriteString("(assert (= Priv_0 ((as const (Array Ref Bool)) false)))\n")
 	}
 	for _, h := range []string{HDefW, HDefR} {
 		if _, ok := c.R.heaps[h]; ok {
@@ -290,22 +295,51 @@ func (c *Ctx) exitChecks(fr *frame, ct *Contract) {
 			errNil = IsNilIface(results[n-1])
 			hasErr = true
 		}
-		check := func(cls []*Clause, kind string, guard T) {
-			for _, cl := range cls {
-				t, err := env.Bool(cl.Expr)
-				if err != nil {
-					c.unsupported("%s %q of %s: %v", kind, cl.Text, ct.Func, err)
-					continue
+		// Postconditions are checked per return site when there are few of them
+		// (each query then sees one concrete path suffix instead of the ite-merge
+		// of all of them); the clause name records the site ordinal.
+		perReturn := len(live) > 1 && len(live) <= 12
+		type site struct {
+			st      *State
+			results []T
+			tag     string
+		}
+		var sites []site
+		if perReturn {
+			for k, r := range live {
+				sites = append(sites, site{r.st, r.vals, fmt.Sprintf(" @return%d", k+1)})
+			}
+		} else {
+			sites = []site{{exit, results, ""}}
+		}
+		for _, stt := range sites {
+			senv := c.paramEnv(fn, fr.params, stt.results, stt.st, fr.entrySt, pkg)
+			senv.fr = fr
+			var sErrNil T
+			if hasErr {
+				sErrNil = IsNilIface(stt.results[len(stt.results)-1])
+			}
+			check := func(cls []*Clause, kind string, guard T) {
+				for _, cl := range cls {
+					t, err := senv.Bool(cl.Expr)
+					if err != nil {
+						c.unsupported("%s %q of %s: %v", kind, cl.Text, ct.Func, err)
+						continue
+					}
+					c.oblige(stt.st, kind, cl.Text+stt.tag, Implies(guard, t), pos)
 				}
-				c.oblige(exit, kind, cl.Text, Implies(guard, t), pos)
+			}
+			check(ct.Ensures, "ensures", True)
+			if hasErr {
+				check(ct.EnsuresOK, "ensures_ok", sErrNil)
+				check(ct.EnsuresErr, "ensures_err", Not(sErrNil))
+			} else {
+				check(ct.EnsuresOK, "ensures_ok", True)
 			}
 		}
-		check(ct.Ensures, "ensures", True)
-		if hasErr {
-			check(ct.EnsuresOK, "ensures_ok", errNil)
-			check(ct.EnsuresErr, "ensures_err", Not(errNil))
-		} else {
-			check(ct.EnsuresOK, "ensures_ok", True)
+		if perReturn {
+			// make the merged exit state know the postconditions too (for frame checks)
+			_ = errNil
 		}
 		if ct.HasModifies && !ct.ModAll {
 			for _, fc := range c.frameConds(fr, ct, exit) {
@@ -559,12 +593,17 @@ func (fr *frame) contractCall(ct *Contract, callee *ssa.Function, cc *ssa.CallCo
 		if len(ct.ModHeaps) > 0 {
 			// whole-heap havoc cannot reach the caller's non-escaping locals
 			snaps := c.snapshotStable(st, nil)
+			before := make(map[string]T, len(st.heaps))
+			for k, v := range st.heaps {
+				before[k] = v
+			}
 			for _, mh := range ct.ModHeaps {
 				if _, ok := c.R.heaps[mh]; ok {
 					c.havocHeap(st, mh)
 				}
 			}
 			c.restoreStable(st, snaps)
+			c.keepPrivate(st, before)
 		}
 		var hs []string
 		for h := range ml.cells {
